@@ -72,6 +72,41 @@ theorem ast_matches_probe :
 theorem loops_catch_oserror : Gen.Tcp.recvLoopCatchesOSError = true ∧ Gen.Tcp.sendLoopCatchesOSError = true := by
   decide
 
+/-- so does the single-connection entry point `Server.serviceReceivesIx(ca)` -/
+theorem receivesIx_catches_oserror : Gen.Tcp.recvIxCatchesOSError = true := by decide
+
+/-- `serviceReceivesIx(ca)` on a serviceable server never lets a socket fault out: the only thing it raises is the
+`ValueError` for an address it does not know (and then nothing changes) -/
+theorem receivesIx_total (s : Server) (ca : Nat) (h : GoodSrv s) :
+    (s.step (.rxix ca)).2 = .ok ∨ ((s.step (.rxix ca)).2 = .raised .other ∧ dictGet s.ixes ca = none ∧ (s.step (.rxix ca)).1 = s) := by
+  simp only [Server.step]
+  cases hg : dictGet s.ixes ca with
+  | none => exact Or.inr ⟨rfl, rfl, rfl⟩
+  | some r =>
+    simp only
+    have hgood : GoodRem r := by
+      have : ∀ (t : Table), dictGet t ca = some r → (∀ p ∈ t, GoodRem p.2) → GoodRem r := by
+        intro t
+        induction t with
+        | nil => intro h0; simp [dictGet] at h0
+        | cons kv rest ih =>
+          obtain ⟨k, v⟩ := kv
+          intro h0 hall
+          unfold dictGet at h0
+          split at h0
+          · cases h0; exact hall (k, r) (by simp)
+          · exact ih h0 (fun p hp => hall p (by simp [hp]))
+      exact this s.ixes hg h.ix
+    have hsp := Rem.serviceReceives_spec r hgood
+    generalize r.serviceReceives = res at hsp
+    obtain ⟨r', e⟩ := res
+    cases e with
+    | none => exact Or.inl rfl
+    | some e =>
+      cases e with
+      | osError => simp [catches, receivesIx_catches_oserror]
+      | other => exact absurd rfl hsp.1
+
 /-- C10.2 servicing a server never raises, whatever the sockets do: for EVERY server state in which the server is
 listening and the remoters it references have their sockets open, and EVERY script (any fault code — listed or not —
 at any send, recv or handshake call of any connection), `Server.service` returns normally and leaves such a state -/
